@@ -26,6 +26,9 @@ type Fedi struct {
 	cursorN   int
 	// MaxPages, MaxItems: when positive, cap the pages per layout and items per page (wide feeds)
 	MaxPages, MaxItems int
+	// Big: pages of dozens to a couple of hundred entries (Lemmy serves 50 per page, some servers
+	// put a whole outbox on one page), to be asked for in large requests
+	Big bool
 }
 
 type Doc = map[string]any
@@ -198,6 +201,9 @@ func (f *Fedi) DrawLayout(host string, mkItem func(remote bool) CItem) *CLayout 
 	l.RootURL = fmt.Sprintf("https://%s/c/%d", host, f.next())
 	itemsFor := func() []CItem {
 		k := t.Weighted(3, 3, 3, 2, 1, 1) // 0..5 items; empty pages are common on purpose
+		if f.Big && t.Chance(2, 3) {
+			k = []int{33, 50, 64, 65, 100, 101, 130, 200}[t.Draw(8)] + t.Draw(3)
+		}
 		if f.MaxItems > 0 && k > f.MaxItems {
 			k = f.MaxItems
 		}
@@ -220,6 +226,9 @@ func (f *Fedi) DrawLayout(host string, mkItem func(remote bool) CItem) *CLayout 
 		np := t.Range(0, 6)
 		if f.MaxPages > 0 && np > f.MaxPages {
 			np = f.MaxPages
+		}
+		if f.Big && np > 3 {
+			np = 3
 		}
 		if np == 0 {
 			l.HasFirst = false
